@@ -32,7 +32,12 @@ IsZero(a) == a[1] = 0
 
 (* exact square root of a rational that is a perfect square (the generators only
    produce such values where a root is needed); <<-1, 1>> marks "not a square" *)
-ISqrt(n) == IF \E k \in 0..200 : k * k = n THEN CHOOSE k \in 0..200 : k * k = n ELSE -1
+RECURSIVE Bisect(_, _, _)
+Bisect(n, lo, hi) == IF lo > hi THEN -1
+                     ELSE LET mid == (lo + hi) \div 2
+                          IN IF mid * mid = n THEN mid
+                             ELSE IF mid * mid < n THEN Bisect(n, mid + 1, hi) ELSE Bisect(n, lo, mid - 1)
+ISqrt(n) == IF n < 0 \/ n > 40000 THEN -1 ELSE Bisect(n, 0, 200)
 IsSquare(a) == a[1] >= 0 /\ ISqrt(a[1]) >= 0 /\ ISqrt(a[2]) >= 0
 Sqrt(a) == IF IsSquare(a) THEN <<ISqrt(a[1]), ISqrt(a[2])>> ELSE <<-1, 1>>
 =============================================================================
